@@ -1,3 +1,4 @@
+import re
 from typing import final
 from typing_extensions import Self
 from . import base
@@ -6,8 +7,12 @@ from .internal import spacing_accessors as _spacing_accessors
 from .internal import value_properties as _value_properties
 
 
+_LINE_RE = re.compile(r'[^\n]*\n|[^\n]+')
+
+
 def _splitlines(s: str) -> list[str]:
-    lines = s.splitlines(keepends=True)
+    # The lexer only breaks lines at "\n"; str.splitlines would also split at "\r", form feeds, U+2028 etc.
+    lines = _LINE_RE.findall(s)
     if not lines or lines[-1].endswith('\n'):
         lines.append('')
     return lines
